@@ -1,0 +1,26 @@
+package hotline
+
+import (
+	"strings"
+	"unicode"
+	"unicode/utf8"
+
+	"gopkg.in/yaml.v3"
+)
+
+// yamlString prepares a string value for one of the YAML files.  yaml.v3 writes a value that contains a line break as
+// a block scalar, and a block scalar whose text starts with a line break, a tab or another blank is not read back as
+// written: the leading line break is lost, and after a leading tab the file cannot be loaded at all.  Such values are
+// written in the double-quoted style instead; everything else is left to the encoder.
+func yamlString(s string) interface{} {
+	if !utf8.ValidString(s) || !strings.ContainsAny(s, "\n\r\u0085\u2028\u2029") {
+		return s
+	}
+
+	first, _ := utf8.DecodeRuneInString(s)
+	if unicode.IsSpace(first) || unicode.IsControl(first) || first == '\u2028' || first == '\u2029' || first == '\ufeff' {
+		return &yaml.Node{Kind: yaml.ScalarNode, Tag: "!!str", Value: s, Style: yaml.DoubleQuotedStyle}
+	}
+
+	return s
+}
